@@ -1,4 +1,6 @@
 """Builds and runs the finder crate (real code, path deps on the tree being checked)."""
+import fcntl
+import hashlib
 import json
 import os
 import shutil
@@ -18,28 +20,45 @@ def _env():
     return e
 
 
+def _rid(repo):
+    return hashlib.sha1(os.path.realpath(repo).encode()).hexdigest()[:12]
+
+
 def build(repo):
-    """returns path to binary or None"""
+    """returns (path to a per-tree copy of the finder binary | None, error text); builds are serialised by a
+    file lock because the cargo target directory is shared between the trees being checked"""
     _DUCK['repo'] = repo
-    src = os.path.join(VERIF, 'build', 'finder-src-%s' % abs(hash(repo)))
+    os.makedirs(os.path.join(VERIF, 'build'), exist_ok=True)
+    src = os.path.join(VERIF, 'build', 'finder-src-%s' % _rid(repo))
     os.makedirs(os.path.join(src, 'src'), exist_ok=True)
-    for f in os.listdir(os.path.join(VERIF, 'finder', 'src')):
-        shutil.copy(os.path.join(VERIF, 'finder', 'src', f), os.path.join(src, 'src', f))
-    toml = open(os.path.join(VERIF, 'finder', 'Cargo.toml.in')).read().replace('@REPO@', repo)
-    open(os.path.join(src, 'Cargo.toml'), 'w').write(toml)
-    lock = os.path.join(repo, 'Cargo.lock')
-    if os.path.exists(lock) and not os.path.exists(os.path.join(src, 'Cargo.lock')):
-        shutil.copy(lock, os.path.join(src, 'Cargo.lock'))
-    p = subprocess.run(['cargo', 'build', '--offline', '--quiet'], cwd=src, env=_env(), stdout=subprocess.PIPE, stderr=subprocess.PIPE, text=True)
-    if p.returncode != 0:
-        return None, p.stderr[-2000:]
-    return os.path.join(TARGET, 'debug', 'verif_finder'), ''
+    with open(os.path.join(VERIF, 'build', 'finder.lock'), 'w') as lk:
+        fcntl.flock(lk, fcntl.LOCK_EX)
+        for f in os.listdir(os.path.join(VERIF, 'finder', 'src')):
+            dst = os.path.join(src, 'src', f)
+            new = open(os.path.join(VERIF, 'finder', 'src', f)).read()
+            if not os.path.exists(dst) or open(dst).read() != new:
+                open(dst, 'w').write(new)
+        toml = open(os.path.join(VERIF, 'finder', 'Cargo.toml.in')).read().replace('@REPO@', repo)
+        open(os.path.join(src, 'Cargo.toml'), 'w').write(toml)
+        lock = os.path.join(repo, 'Cargo.lock')
+        if os.path.exists(lock) and not os.path.exists(os.path.join(src, 'Cargo.lock')):
+            shutil.copy(lock, os.path.join(src, 'Cargo.lock'))
+        p = subprocess.run(['cargo', 'build', '--offline', '--quiet'], cwd=src, env=_env(), stdout=subprocess.PIPE, stderr=subprocess.PIPE, text=True)
+        if p.returncode != 0:
+            return None, p.stderr[-2000:]
+        bindir = os.path.join(VERIF, 'build', 'finder-bin-%s' % _rid(repo))
+        os.makedirs(bindir, exist_ok=True)
+        out = os.path.join(bindir, 'verif_finder')
+        tmp = out + '.%d' % os.getpid()
+        shutil.copy2(os.path.join(TARGET, 'debug', 'verif_finder'), tmp)
+        os.replace(tmp, out)
+    return out, ''
 
 
 def build_duck(repo):
     """builds the CLI of the tree being checked (C20 runs the real executable)"""
     e = _env()
-    e['CARGO_TARGET_DIR'] = os.path.join(VERIF, 'build', 'duck-target-%s' % abs(hash(repo)))
+    e['CARGO_TARGET_DIR'] = os.path.join(VERIF, 'build', 'duck-target-%s' % _rid(repo))
     p = subprocess.run(['cargo', 'build', '--offline', '--quiet', '-p', 'duckscript_cli'], cwd=repo, env=e, stdout=subprocess.PIPE, stderr=subprocess.PIPE, text=True)
     b = os.path.join(e['CARGO_TARGET_DIR'], 'debug', 'duck')
     return b if p.returncode == 0 and os.path.exists(b) else None
